@@ -19,6 +19,8 @@ package reflect
 import (
 	"errors"
 	"unsafe"
+
+	"github.com/cloudwego/frugal/internal/defs"
 )
 
 var mapAppendFuncs = map[struct{ k, v ttype }]appendFuncType{}
@@ -29,6 +31,12 @@ func updateMapAppendFunc(t *tType) {
 	}
 
 	f, ok := mapAppendFuncs[struct{ k, v ttype }{k: t.K.T, v: t.V.T}]
+	if ok && t.V.Tag == defs.T_binary {
+		// binary shares tSTRING with string, but its Go type is []byte:
+		// the tSTRING fast paths range over map[K]string and would read the
+		// 24-byte slice headers with the element size of a string.
+		ok = false
+	}
 	if ok {
 		t.AppendFunc = f
 		return
